@@ -1383,10 +1383,12 @@ def discharge(res: FnResult, obligations: List[Obligation], timeout_ms: int, onl
                     if s3.check() == z3.unsat:
                         r = z3.unsat
                     res.nqueries += 1
-            if r == z3.unknown and small_scope:
-                # few quantifiers are left in small-scope mode: model-based instantiation can decide
+            if r == z3.unknown and (small_scope or os.environ.get('PYVC_MBQI') != '0'):
+                # last resort: z3's default configuration (model-based quantifier instantiation on).  `unsat`
+                # is `unsat` whatever the strategy; in small-scope mode few quantifiers are left and it also
+                # finds counter-models
                 s2 = z3.Solver()
-                s2.set('timeout', min(timeout_ms, 5000))
+                s2.set('timeout', min(timeout_ms, 5000) if small_scope else timeout_ms)
                 s2.add(*ob.pc)
                 s2.add(*(lemmas if not callable(lemmas) else []))
                 s2.add(z3.Not(ob.goal))
